@@ -5,7 +5,8 @@ from __future__ import annotations
 from ..bfs import Model
 from ..nspec import NSpec, Mismatch
 
-OPS = (["acquire", "L"], ["acquire_nowait", "L"], ["release", "L"], ["pc", ["acquire", "L"]])
+OPS = (["acquire", "L"], ["acquire_nowait", "L"], ["release", "L"], ["pc", ["acquire", "L"]],
+       ["dirty", ["acquire", "L"]])
 
 
 class LockModel(Model):
